@@ -85,6 +85,7 @@ def decsOfJson (j : Json) : Except String (List (String × DecPos)) :=
       let a ← t.getArr?
       let pos ← match ← a[1]!.getStr? with
         | "bare" => pure DecPos.bare | "items" => pure DecPos.items | "values" => pure DecPos.values
+        | "optional" => pure DecPos.optional
         | s => throw s!"dec position {s}"
       pure ((← a[0]!.getStr?), pos)
 
